@@ -831,3 +831,113 @@ by apply/matrixP => i; case: i => i Hi0; exfalso; move: Hi0; rewrite /= ltn0.
 Qed.
 
 End NonVacuity.
+
+(* ================================================================== *)
+(* Part E: a filter span that reaches beyond the data (on the right)    *)
+(* ================================================================== *)
+Section Extend.
+Variable F : realFieldType.
+Notation O := (MCOps F).
+
+Lemma vget_usub n (t : 'cV[F]_(n + 1)) (i : nat) : (i < n)%N -> vget (usubmx t) i = vget t i.
+Proof.
+move=> Hi; have Hi1 : (i < n + 1)%N by lia.
+rewrite (vgetE (usubmx t) (Ordinal Hi)) (vgetE t (Ordinal Hi1)) mxE.
+by congr (t _ _); apply: val_inj.
+Qed.
+
+Lemma vget_col_last n (t : 'cV[F]_n) (z : F) : vget (col_mx t (z%:M : 'cV[F]_1)) n = z.
+Proof.
+have Hn : (n < n + 1)%N by lia.
+rewrite (vgetE _ (Ordinal Hn)).
+have -> : Ordinal Hn = rshift n (ord0 : 'I_1) by apply: val_inj; rewrite /= addn0.
+by rewrite col_mxEd mxE eqxx mulr1n.
+Qed.
+
+Section Fixed.
+Variables (n : nat) (lam : F) (data : list (option F)) (lc cc : list (nat * F)).
+Hypothesis n2 : (2 <= n)%N.
+Hypothesis data_len : obs_at O data n = false.
+Hypothesis lc_pos : forall i, (i < length lc)%N -> (cpos O lc i < n)%N.
+Hypothesis cc_pos : forall i, (i < length cc)%N -> (cpos O cc i < n)%N.
+
+(* the objective on n+1 periods = the objective on the first n periods + lam * (last second difference)^2 *)
+Lemma hp_J_split (t : 'cV[F]_(n + 1)) :
+  hp_J lam data t = hp_J lam data (usubmx t)
+                    + lam * (vget t n.-2 - 2%:R * vget t n.-1 + vget t n) ^+ 2.
+Proof.
+rewrite /hp_J.
+have -> : (n + 1 - 2 = (n - 2).+1)%N by lia.
+have E : forall f : nat -> F, \sum_(0 <= i < n + 1) f i = \sum_(0 <= i < n) f i + f n.
+  by move=> f; rewrite addn1 big_nat_recr.
+rewrite big_mkcond [in RHS]big_mkcond /= E big_nat_recr //= data_len addr0.
+have -> : (n - 2).+2 = n by lia.
+have -> : (n - 2).+1 = n.-1 by lia.
+have -> : (n - 2)%N = n.-2 by lia.
+rewrite mulrDr addrA; congr (_ + lam * _ + _).
+- by apply: eq_big_nat => i /andP[_ Hi]; rewrite vget_usub.
+- by apply: eq_big_nat => j /andP[_ Hj]; rewrite !vget_usub //; lia.
+Qed.
+
+Lemma crows_extend (st : list (Z * Z)) (cs : list (nat * F)) (t : 'cV[F]_(n + 1)) :
+  (forall i k, (i < length cs)%N -> (n <= k)%N ->
+               stencil_coef st (Z.sub (Z.of_nat k) (Z.of_nat (cpos O cs i))) = Z0) ->
+  crows O st (n + 1) cs *m t = crows O st n cs *m usubmx t.
+Proof.
+move=> H0; apply/matrixP => i j; rewrite !mxE big_split_ord /= [X in _ + X]big1 ?addr0.
+- by apply: eq_bigr => k _; rewrite !mxE.
+- by move=> k _; rewrite !mxE /= H0 ?mul0r // leq_addr.
+Qed.
+
+Lemma hp_C_extend (t : 'cV[F]_(n + 1)) : hp_C O (n + 1) lc cc *m t = hp_C O n lc cc *m usubmx t.
+Proof.
+rewrite /hp_C !mul_col_mx !crows_extend //.
+- move=> i k Hi Hk; rewrite hp_change_rowE.
+  have Hp := cc_pos Hi.
+  have -> : (k.+1 == cpos O cc i) = false by lia.
+  by have -> : (k == cpos O cc i) = false by lia.
+- move=> i k Hi Hk; rewrite hp_level_rowE.
+  have Hp := lc_pos Hi.
+  by have -> : (k == cpos O lc i) = false by lia.
+Qed.
+
+(* linear extrapolation by one period *)
+Definition extend1 (t : 'cV[F]_n) : 'cV[F]_(n + 1) :=
+  col_mx t ((2%:R * vget t n.-1 - vget t n.-2)%:M : 'cV[F]_1).
+
+Lemma vget_extend1 (t : 'cV[F]_n) i : (i < n)%N -> vget (extend1 t) i = vget t i.
+Proof. by move=> Hi; rewrite -(@vget_usub n (extend1 t) i Hi) /extend1 col_mxKu. Qed.
+
+Lemma hp_J_extend1 (t : 'cV[F]_n) : hp_J lam data (extend1 t) = hp_J lam data t.
+Proof.
+rewrite hp_J_split /extend1 col_mxKu vget_col_last -/(extend1 t) !vget_extend1; try lia.
+have -> : vget t n.-2 - 2%:R * vget t n.-1 + (2%:R * vget t n.-1 - vget t n.-2) = 0 by ring.
+by rewrite expr0n /= mulr0 addr0.
+Qed.
+
+(* Theorem: appending an unobserved, unconstrained period at the end of the filter span leaves the trend on the
+   original periods unchanged and continues it by linear extrapolation *)
+Theorem hp_extend_right (solve : forall m, 'M[F]_m -> 'cV[F]_m -> 'cV[F]_m) :
+  0 < lam ->
+  hp_M O n lam data lc cc *m solve _ (hp_M O n lam data lc cc) (hp_rhs O n data lc cc) = hp_rhs O n data lc cc ->
+  hp_M O (n + 1) lam data lc cc *m solve _ (hp_M O (n + 1) lam data lc cc) (hp_rhs O (n + 1) data lc cc)
+    = hp_rhs O (n + 1) data lc cc ->
+  hp_M O (n + 1) lam data lc cc \in unitmx ->
+  hp_trend_vec O solve (n + 1) lam data lc cc = extend1 (hp_trend_vec O solve n lam data lc cc).
+Proof.
+move=> Hl Hs Hs1 Hu.
+set t := hp_trend_vec O solve n lam data lc cc.
+set t1 := hp_trend_vec O solve (n + 1) lam data lc cc.
+have [Ct Hopt] := hp_optimal Hs (ltW Hl).
+have [Ct1 _] := hp_optimal Hs1 (ltW Hl).
+symmetry; apply: (hp_unique Hs1 Hl Hu).
+- by rewrite hp_C_extend /extend1 col_mxKu.
+- rewrite hp_J_extend1.
+  have Cu : hp_C O n lc cc *m usubmx t1 = hp_c O lc cc by rewrite -hp_C_extend.
+  have [_ [_ Hle]] := Hopt _ Cu.
+  apply: (le_trans Hle); rewrite (hp_J_split t1) ler_addl.
+  by apply: mulr_ge0; [exact: ltW | exact: sqr_ge0].
+Qed.
+
+End Fixed.
+End Extend.
